@@ -53,6 +53,10 @@ func c06after(v *vServer, vc *vConn, label string) {
 	nd.Assert(v.sess.closed == 1, label+"-session-closed-exactly-once")
 	nd.Assert(vc.closed > 0, label+"-connection-closed")
 	nd.Assert(len(v.srv.conns) == 0, label+"-connection-unregistered")
+	// nothing of the connection stays alive once serve has returned: a backend Idle call
+	// has been told to stop and has returned
+	vSettle(func() bool { return v.sess.idleReturned == v.sess.idleStarted })
+	nd.Assert(v.sess.idleReturned == v.sess.idleStarted, label+"-backend-idle-still-running-after-connection-ended")
 	_, rest := vLines(vc.out)
 	nd.Assert(rest == "", label+"-output-whole-lines")
 	for _, o := range v.sess.calls {
@@ -122,12 +126,17 @@ func VerifC06Cut() {
 }
 
 // VerifC06Limits: literal announcements of every interesting size in buffered contexts and
-// APPEND: no continuation request for a refused size, nothing over 4096 bytes buffered.
+// APPEND, with and without LITERAL+ advertised, the payload following or not: no
+// continuation request for a refused size, nothing over 4096 bytes buffered.
 func VerifC06Limits() {
 	sizes := []string{"0", "4096", "4097", "104857600", "104857601", "9223372036854775807", "9223372036854775808", "99999999999999999999"}
-	sz := sizes[nd.Concretize(nd.Choice(len(sizes)))]
+	si := nd.Concretize(nd.Choice(len(sizes)))
+	sz := sizes[si]
 	plus := nd.Bool()
+	litPlus := nd.Bool()
 	which := nd.Concretize(nd.Choice(3))
+	// the announced octets actually follow (only for the sizes that fit a test)
+	payload := si <= 2 && nd.Bool()
 	hdr := "{" + sz
 	if plus {
 		hdr += "+"
@@ -144,9 +153,41 @@ func VerifC06Limits() {
 	case 2:
 		in = "A1 APPEND m " + hdr
 	}
-	v, vc := c06run([]byte(in), state, true)
+	inb := []byte(in)
+	if payload {
+		n := []int{0, 4096, 4097}[si]
+		for i := 0; i < n; i++ {
+			inb = append(inb, 'x')
+		}
+		if which == 0 {
+			inb = append(inb, " p"...)
+		}
+		inb = append(inb, "\r\nZ9 NOOP\r\n"...)
+	}
+	caps := imap.CapSet{imap.CapIMAP4rev1: {}}
+	if litPlus {
+		caps[imap.CapLiteralPlus] = struct{}{}
+	}
+	v := vNewServer(caps, true)
+	v.preAuth = state > 0
+	vc := &vConn{in: inb, silent: true}
+	if payload && !plus {
+		// a well-behaved client sends the payload only after the continuation request
+		hl := len(in)
+		vc.avail = func(c *vConn) int {
+			lines, _ := vLines(c.out)
+			for _, l := range lines {
+				if vHasPrefix(l, "+ ") {
+					return len(c.in)
+				}
+			}
+			return hl
+		}
+	}
+	c := newConn(vc, v.srv)
+	c.serve()
 	nd.Reach("limits")
-	nd.Note("in", in)
+	nd.Note("in", in, payload, litPlus)
 	nd.Note("out", string(vc.out))
 	c06after(v, vc, "limits")
 	lines, _ := vLines(vc.out)
@@ -160,8 +201,14 @@ func VerifC06Limits() {
 	}
 	fits := len(sz) < len(limit) || (len(sz) == len(limit) && sz <= limit)
 	nd.Assert(cont == (fits && !plus), "continuation-request-iff-synchronising-and-within-limit")
-	if sz != "0" {
+	if !payload && sz != "0" {
 		nd.Assert(v.sess.count("Append") == 0 && v.sess.count("Login") == 0 && v.sess.count("Create") == 0, "nothing-executed-without-payload")
+	}
+	if !fits || (which == 2 && plus && !litPlus && si >= 2) {
+		nd.Assert(v.sess.count("Append") == 0 && v.sess.count("Login") == 0 && v.sess.count("Create") == 0, "refused-literal-but-command-executed")
+	}
+	for _, o := range v.sess.calls {
+		nd.Assert(len(o.lit) <= 4097, "append-payload-larger-than-sent")
 	}
 }
 
